@@ -185,10 +185,24 @@ def oracle_stress(case, out):
     return fails
 
 
+def stop_abort_steps(case):
+    """ctx mode: the LAST op of a sharer, when it is an abort of an open section, is performed as `Stop() requested, then the
+    body returns ErrCriticalSectionAborted` (Run must roll the section back before it honours the exit request); to the model
+    it is the same abort. Chosen without consuming the PRNG; a case may also list indices itself under "stop_abort"."""
+    if "stop_abort" in case:
+        return list(case["stop_abort"])
+    last = {}
+    for k, op in enumerate(case["ops"]):
+        last[op[1]] = k
+    return sorted(k for i, k in last.items() if case["ops"][k][0] == "abort")[:1]
+
+
 def expand_for_harness(case):
     """inc / iinc are two accesses (read, then write of read+1): the harness is given them as one scripted pair"""
     d = {"id": case["id"], "mode": case["mode"], "nsh": case["nsh"], "timeout_ms": case["timeout_ms"],
          "vars": case["vars"], "ops": case["ops"]}
+    if case["mode"] == "ctx":
+        d["stop_abort"] = stop_abort_steps(case)
     if case["mode"] == "stress":
         d["iters"] = case["iters"]; d["seed"] = case["seed"]
     return d
